@@ -4,8 +4,11 @@ package c39
 import (
 	"context"
 	"fmt"
+	"runtime"
 	"sort"
 	"strings"
+	"sync"
+	"sync/atomic"
 	"testing"
 
 	"github.com/chrislusf/seaweedfs/weed/filesys"
@@ -413,4 +416,109 @@ func TestPropFsCacheExhaustive(t *testing.T) {
 		t.Fatalf("%v", fail)
 	}
 	vlib.Exhaustive(fmt.Sprintf("all-sequences-len<=%d-over-%d-ops", L, len(ops)), true)
+}
+
+// ---------------------------------------------------------------- overlapping EnsureFsNode calls
+//
+// The statement is about operation sequences; two EnsureFsNode calls that overlap in time must still behave like
+// *some* sequence of the two: on a reference tree the first one inserts and every later one finds that node. So all
+// overlapping callers of one path receive one and the same node, GetFsNode returns it afterwards, and an already
+// cached node is never replaced. (The mount calls EnsureFsNode from concurrently served Lookup requests.) The
+// generator callback is harness code: it yields a drawn number of times so that the window between lookup and insert is
+// wide whenever the implementation leaves one; the yields are schedule perturbation, never an oracle.
+func TestPropConcurrentEnsure(t *testing.T) {
+	uni := universe([]string{"a", "b", "c"}, 3)
+	vlib.Check(t, 300, 3000, func(t *rapid.T) {
+		c := filesys.NewVerifFsCache(nil)
+		model := map[string]fs.Node{}
+		nPre := rapid.IntRange(0, 6).Draw(t, "nPre")
+		for i := 0; i < nPre; i++ {
+			p := rapid.SampledFrom(uni).Draw(t, "pre")
+			n := &plain{id: 1000 + i}
+			c.SetFsNode(util.FullPath(p), n)
+			model[p] = n
+		}
+		rounds := rapid.IntRange(1, 6).Draw(t, "rounds")
+		yields := rapid.IntRange(0, 20).Draw(t, "yields")
+		sawExisting, sawFresh := false, false
+		var nextID int64 = 1
+		for r := 0; r < rounds; r++ {
+			g := rapid.IntRange(2, 8).Draw(t, "goroutines")
+			nPaths := rapid.IntRange(1, 3).Draw(t, "nPaths")
+			targets := make([]string, nPaths)
+			for i := range targets {
+				targets[i] = rapid.SampledFrom(uni).Draw(t, "target")
+			}
+			assign := make([]string, g)
+			for i := range assign {
+				assign[i] = targets[i%nPaths]
+			}
+			got := make([]fs.Node, g)
+			var ready, done sync.WaitGroup
+			var start int32
+			ready.Add(g)
+			done.Add(g)
+			for i := 0; i < g; i++ {
+				go func(i int) {
+					defer done.Done()
+					ready.Done()
+					for atomic.LoadInt32(&start) == 0 {
+						runtime.Gosched()
+					}
+					got[i] = c.EnsureFsNode(util.FullPath(assign[i]), func() fs.Node {
+						id := atomic.AddInt64(&nextID, 1)
+						for y := 0; y < yields; y++ {
+							runtime.Gosched()
+						}
+						return &plain{id: int(id)}
+					})
+				}(i)
+			}
+			ready.Wait()
+			atomic.StoreInt32(&start, 1)
+			done.Wait()
+			for _, p := range targets {
+				var first fs.Node
+				for i := 0; i < g; i++ {
+					if assign[i] != p {
+						continue
+					}
+					if got[i] == nil {
+						t.Fatalf("round %d: EnsureFsNode(%s) returned nil", r, p)
+					}
+					if first == nil {
+						first = got[i]
+					} else if got[i] != first {
+						t.Fatalf("round %d: overlapping EnsureFsNode(%s) calls returned different nodes %v and %v", r, p, first, got[i])
+					}
+				}
+				if first == nil {
+					continue
+				}
+				if was, ok := model[p]; ok {
+					sawExisting = true
+					if first != was {
+						t.Fatalf("round %d: EnsureFsNode(%s) returned %v although %v was cached", r, p, first, was)
+					}
+				} else {
+					sawFresh = true
+				}
+				if now := c.GetFsNode(util.FullPath(p)); now != first {
+					t.Fatalf("round %d: GetFsNode(%s) = %v after overlapping EnsureFsNode calls returned %v", r, p, now, first)
+				}
+				model[p] = first
+			}
+			// nothing else moved
+			for p, want := range model {
+				if now := c.GetFsNode(util.FullPath(p)); now != want {
+					t.Fatalf("round %d: GetFsNode(%s) = %v, reference has %v", r, p, now, want)
+				}
+			}
+		}
+		cls := []string{"concurrent-ensure"}
+		if sawExisting {
+			cls = append(cls, "concurrent-ensure-of-cached-path")
+		}
+		vlib.Case(fmt.Sprintf("concurrent-ensure rounds=%d yields=%d pre=%d", rounds, yields, nPre), sawFresh, cls...)
+	})
 }
